@@ -8,9 +8,9 @@ PROPS = ('C03',)
 def run(ctx):
     ctx.rule = ('G: ContainersGen.tla emits every abstract request (len <= 4, bounds -6..6/end, k <= 2, one/del forms, arglike '
                 'category sequences) with its expected result; all rows are compared with Python list semantics and a '
-                'sample (thorough: all) is replayed on 39 container templates. M: ContainersMC.tla (every entry point = Python list semantics; all lengths/bounds within constants). '
+                'sample (thorough: all) is replayed on 43 container templates x argument layouts. M: ContainersMC.tla (every entry point = Python list semantics; all lengths/bounds within constants). '
                 'V: random edit histories (every list-valued/optional/single field reachable in the corpus x index '
-                'class x code form x entry point x option set) on 40 corpus programs x 8 layout variants, each event '
+                'class x code form x entry point x option set) on 45 corpus programs x 10 layout variants, each event '
                 'validated by TLC against EditLaws (SliceLaw, NothingElse, OracleAgree, CarriedOutNotRefused). '
                 'distinct = distinct (kind, field, form, entry point, code form, outcome, bound kinds) tuples executed')
     ctx.assumptions += ['projection (harness/proj.py) and pure-AST oracle (ast.unparse/ast.parse/compile) are trusted',
